@@ -205,3 +205,16 @@ def dm_state(rho, n):
     qs = QuantumState(n, rep_type="dm")
     qs.rep_data.data = rho
     return qs
+
+
+def declare_pinned_stabilizer(S, labels, tag="S"):
+    """stabilizer tableau whose Pauli pattern is the given list of generator strings (concrete x/z bits) and whose
+    signs are symbolic -- used to pin a known finding to its specific input"""
+    n = len(labels)
+    spec = declare_stabilizer(S, n, tag=tag)
+    for i, lab in enumerate(labels):
+        for j, ch in enumerate(lab):
+            xb, zb = {"I": (0, 0), "X": (1, 0), "Y": (1, 1), "Z": (0, 1)}[ch]
+            S.assume(O.eq_bits(spec["table"][i, j], xb))
+            S.assume(O.eq_bits(spec["table"][i, n + j], zb))
+    return spec
